@@ -49,6 +49,7 @@ class CallWriteHandler(AbstractWriteHandler):
         op: SsbLabelJump = self.start_vertex["op"]
         self.decompiler.source_map_add_opcode(op.offset)
         assert op.label is not None
+        self.decompiler.labels_jumped_to.add(op.label.id)
         self.decompiler.write_stmnt(f"call @label_{op.label.id};")
         exits = self.start_vertex.out_edges()
         assert 3 > len(exits) > 0, f"A call must have exactly one or two points to jump to, has {len(exits)}."
